@@ -420,4 +420,46 @@ theorem EncodeBytes_refines (fuel : Nat) (hf : 10 ≤ fuel) (p : Bytes) (off tag
   · have hst1 := store_panic p off.toNat T h1
     simp only [hst1, Bind.bind, Res.bind, EncOut.ofRes, s1bad h1]
 
+/-- **`(*Encoder).EncodeMapEntryHeader` of the source refines `Enc.step (.mapHeader tag size)` (key with wire type 2, then the entry size as a varint)** -/
+theorem EncodeMapEntryHeader_refines (fuel : Nat) (hf : 10 ≤ fuel) (p : Bytes) (off tag : BitVec 64) (v : BitVec 64)
+    (hp : p.length < 2 ^ 63) (hoff : off.toNat ≤ p.length) :
+    match ({ buf := p, off := off.toNat } : Enc).step (.mapHeader tag.toNat v.toNat) with
+    | .ok e' => ∃ s, Encoder_EncodeMapEntryHeader fuel p off tag v = .ret () s ∧ s.e_p = e'.buf ∧ s.e_offset.toNat = e'.off
+    | .panic => Encoder_EncodeMapEntryHeader fuel p off tag v = .panic
+    | .err _ => False := by
+  have hwt : wtLen = (2#64).toNat := rfl
+  obtain ⟨s1ok, s1bad⟩ := stage (EncodeTag fuel (p.drop off.toNat) tag 2#64) (·.dest) p off (encTag tag.toNat wtLen) hp hoff
+    (fun h => by rw [hwt] at h ⊢; exact EncodeTag_ok fuel _ tag 2#64 hf h)
+    (fun h => by rw [hwt] at h; exact EncodeTag_short fuel _ tag 2#64 hf h)
+  unfold Encoder_EncodeMapEntryHeader Encoder_EncodeMapEntryHeader.body
+  simp only [Go.seq, hoff, if_true, Enc.step, EncOp.wire]
+  by_cases h1 : off.toNat + (encTag tag.toNat wtLen).length ≤ p.length
+  · obtain ⟨c1, hc1, hw1, ha1⟩ := s1ok h1
+    have hlen1 : (writeAt p off.toNat (encTag tag.toNat wtLen)).length = p.length := writeAt_length h1
+    obtain ⟨s2ok, s2bad⟩ := stage (EncodeVarint fuel ((writeAt p off.toNat (encTag tag.toNat wtLen)).drop (off + BitVec.ofNat 64 (encTag tag.toNat wtLen).length).toNat) v)
+      (·.dest) (writeAt p off.toNat (encTag tag.toNat wtLen)) (off + BitVec.ofNat 64 (encTag tag.toNat wtLen).length) (encVarint v.toNat)
+      (by rw [hlen1]; exact hp) (by rw [hlen1, ha1]; exact h1)
+      (fun h => EncodeVarint_ok fuel _ v hf h) (fun h => EncodeVarint_short fuel _ v hf h)
+    simp only [hc1, hw1, hlen1, ha1, h1, if_true]
+    by_cases h2 : off.toNat + (encTag tag.toNat wtLen).length + (encVarint v.toNat).length ≤ p.length
+    · obtain ⟨c2, hc2, hw2, ha2⟩ := s2ok (by rw [ha1, hlen1]; exact h2)
+      have hst : ({ buf := p, off := off.toNat } : Enc).store (encTag tag.toNat wtLen ++ encVarint v.toNat) =
+          .ok { buf := writeAt p off.toNat (encTag tag.toNat wtLen ++ encVarint v.toNat), off := off.toNat + (encTag tag.toNat wtLen ++ encVarint v.toNat).length } :=
+        store_ok p _ _ (by simp; omega)
+      rw [ha1] at hc2 hw2 ha2
+      simp only [hst, EncOut.ofRes, hc2, hw2, ha1]
+      refine ⟨_, rfl, ?_, ?_⟩
+      · exact writeAt_writeAt p off.toNat _ _ h2
+      · simp [ha2]; omega
+    · have hst : ({ buf := p, off := off.toNat } : Enc).store (encTag tag.toNat wtLen ++ encVarint v.toNat) = .panic :=
+        store_panic p _ _ (by simp; omega)
+      simp only [hst, EncOut.ofRes]
+      have hb := s2bad (by rw [ha1, hlen1]; exact h2)
+      rw [ha1] at hb
+      rw [hb]
+  · have hst : ({ buf := p, off := off.toNat } : Enc).store (encTag tag.toNat wtLen ++ encVarint v.toNat) = .panic :=
+      store_panic p _ _ (by simp; omega)
+    simp only [hst, EncOut.ofRes, s1bad h1]
+
+
 end Csproto.Bridge.EncoderFuncs
